@@ -928,3 +928,5 @@ def _run(world: World, plan):
     return common.finish(world, nontrivial, [sig, order, plan['net'].get('segmentation'), plan['net'].get('coalesce')])
 
 INFO['rule'] += " Round-5 additions: 2..3 create_peer_connection calls for one user overlap while the server's GetPeerAddress answer is outstanding, some callers are cancelled before it arrives (lookups); a caller nobody cancelled must not end cancelled, the answer must let a live caller proceed to its connect attempt."
+
+INFO['rule'] += ' Round-6 additions: expected field values that are falsy (falsy_values); an application listener that hangs up on the peer inside the dispatch of his reply and then takes its time (close_on_reply).'
